@@ -4,11 +4,11 @@ package c06
 
 import (
 	"bytes"
-	"strings"
 	"encoding/hex"
 	"encoding/json"
 	"fmt"
 	"io"
+	"strings"
 	"time"
 
 	"verifharness/fw"
